@@ -6,7 +6,7 @@
    The tie to the C++: every trace of the real headers under the scheduler shim is replayed by the executable acceptor;
    [acceptor_simulation] / [accepted_trace_reachable] show that an accepted trace stays inside the reachable states. *)
 From Coq Require Import List Arith PeanoNat Permutation.
-From V Require Import C11.Glue C11.Ring C11.Ghost C11.Proofs C11.Sim C11.SpinProofs C11.Meets C11.Examples.
+From V Require Import C11.Glue C11.Ring C11.Ghost C11.Proofs C11.Sim C11.SpinProofs C11.Meets C11.Meets2 C11.Examples.
 Import ListNotations.
 Local Open Scope nat_scope.
 
@@ -145,3 +145,15 @@ Theorem spin_model_meets_spec_mutex : forall scripts trace s, replay_spin script
   check (maxin s <=? 1) "spin_mutex:max_in_cs" = [].
 Proof. exact model_meets_spec_spin_mutex. Qed.
 Print Assumptions spin_model_meets_spec_mutex.
+
+Theorem spin_model_meets_spec_history : forall scripts trace s, replay_spin scripts trace = RDone s ->
+  holder_scan None (events_of trace) = [].
+Proof. exact model_meets_spec_spin_history. Qed.
+Print Assumptions spin_model_meets_spec_history.
+
+(* ---- model_meets_spec for the whole clause "no element is leaked or freed twice" of the SPEC *)
+Theorem ring_model_meets_spec_no_leak_clause : forall max_size scripts chunks trace a, 1 <= max_size -> NoDup (concat scripts) ->
+  replay_ring max_size scripts chunks trace = RDone a -> ph a = Dead ->
+  check_no_leak (ring_summary a) = [].
+Proof. exact model_meets_spec_check_no_leak. Qed.
+Print Assumptions ring_model_meets_spec_no_leak_clause.
